@@ -1,4 +1,4 @@
-import StepModel.P21.ReaderLemmas2
+import StepModel.P21.ReaderLemmas5
 import StepModel.Generated.P21RWGen
 /-! # C03 — the reader never reports a violating file as clean: property theorems
 
@@ -493,6 +493,215 @@ theorem C03_skip_instance_resynchronises (cfg : RWCfg) (body : List Byte)
   unfold skipInstance
   exact scanTo_semicolon _ body hb _ 0 l rest (by simp only [List.length_append, List.length_cons]; omega)
 
+/-! ### the confinement clause: a record that is not read cleanly, among records that are -/
+
+/-- the source as it is now: `ReadInstance` re-synchronises a record that was not read cleanly from its start
+    (regenerated on every run) -/
+theorem C03_source_error_resyncs_from_start : Generated.rwCfg.errorResyncsFromStart = true := by decide
+
+/-- **resynchronisation of a record that is not read cleanly** (repaired `ReadInstance`; `skipws` off after the read, as
+    it is in a data section): whatever `SDAI_Application_instance::STEPread` makes of the parameter list — any severity
+    WARNING or worse, any values, the stream left anywhere (inside a string literal, at the end of the file, failed) —
+    `ReadInstance` ends right after the record's `;`, keeps what was read, marks the instance incomplete and hands the
+    severity to `AppendEntityErrorMsg`.  The record's text is any list of tokens `SkipInstance` gets over (strings
+    with `)` `;` `,` inside, comments, anything of the covered kinds) in any layout. -/
+theorem C03_error_resync_confines {F} (ops : FloatOps F) (lex : LexCfg) (cfg : RWCfg) (d : Dict) (strict : Bool)
+    (hrs : cfg.errorResyncsFromStart = true) (hskip : cfg.skipInstanceSkipsComments = true) (st : P2 F)
+    (r : Rec F) (hlex : r.Lex) (hscan : ∀ q ∈ r.ps, ParamScan q) (l rest : List Byte) (sk : Bool) (hs : st.s = G l (r.text rest) sk)
+    (inst : MInst F) (hfind : st.mgr.find? r.id = some inst) (hnew : inst.state = .new) (hcx : inst.complex = false)
+    (p : MPart F) (hparts : inst.parts = [p]) (e : EntityD) (hent : d.entity? p.name = some e)
+    (sev0 : Sev) (vals : List (MVal F))
+    (hrd : ∀ L, ∃ sR, instSTEPread { ops := ops, lex := lex, cfg := cfg, dict := d, lookup := Mgr.lookup d st.mgr } strict
+        e.attrs (G L (40 :: (renderParams r.ps ++ r.t4 rest)) sk) = .ok ⟨sev0, vals, sR⟩ ∧ (readTokenSeparator sR).skipws = false)
+    (hsev : sev0.toInt ≤ Sev.warning.toInt) :
+    ∃ l', readInstance ops lex cfg d strict st =
+      .ok { s := G l' rest false, inst := some { inst with parts := [{ p with vals := vals }], state := .incomplete },
+            reported := some sev0, left := some .null } := by
+  obtain ⟨l', h⟩ := readInstance_resync ops lex cfg d strict hrs hskip st r hlex hscan l rest sk hs inst hfind hnew hcx p hparts
+    e hent sev0 vals hrd hsev
+  refine ⟨l', ?_⟩
+  rw [h]
+  have : stateOf sev0 = .incomplete := by cases sev0 <;> first | rfl | (exfalso; revert hsev; decide)
+  rw [this]
+
+/-- a record every parameter of which is read, where it stands, with a known severity to a known value (`ParamRd`):
+    the record's severity is the accumulated one, its values are all the parameters' values -/
+def Marked {F} (env : Env F) (strict : Bool) (x : Step F) : Prop :=
+  x.r.Lex ∧ Seps x.g ∧ (∀ q ∈ x.r.ps, ParamScan q) ∧
+  ∃ (qs : List (Param F × Sev)) (e : EntityD), x.r.ps = qs.map (·.1) ∧ (∀ q ∈ qs, ParamRd env strict q.1 q.2) ∧
+    env.dict.entity? x.r.name = some e ∧ e.attrs = x.r.ps.map (·.a) ∧ x.sev = accum .null (qs.map (·.2)) ∧
+    x.out = { id := x.r.id, parts := [{ name := x.r.name, vals := x.r.ps.map (·.v) }], state := stateOf x.sev }
+
+/-- a record `SDAI_Application_instance::STEPread` does not read cleanly in a way the model of the attribute readers
+    need not know: its parameter list (any list of tokens `SkipInstance` gets over, in any layout) is read with severity
+    `x.sev`, WARNING or worse, to some values, and the stream is left anywhere (with `skipws` off) -/
+def Flawed {F} (env : Env F) (strict : Bool) (x : Step F) : Prop :=
+  x.r.Lex ∧ Seps x.g ∧ (∀ q ∈ x.r.ps, ParamScan q) ∧ x.sev.toInt ≤ Sev.warning.toInt ∧
+  ∃ e vals, env.dict.entity? x.r.name = some e ∧
+    x.out = { id := x.r.id, parts := [{ name := x.r.name, vals := vals }], state := .incomplete } ∧
+    ∀ L rest, ∃ sR, instSTEPread env strict e.attrs (G L (40 :: (renderParams x.r.ps ++ x.r.t4 rest)) false) =
+      .ok ⟨x.sev, vals, sR⟩ ∧ (readTokenSeparator sR).skipws = false
+
+/-- parameters read without a message leave the record without one -/
+theorem accum_null (sevs : List Sev) (h : ∀ s ∈ sevs, s = .null) : accum .null sevs = .null := by
+  induction sevs with
+  | nil => rfl
+  | cons s t ih =>
+    have hs : s = .null := h s (by simp)
+    subst hs
+    exact ih (fun x hx => h x (by simp [hx]))
+
+/-- one parameter read with a severity worse than a user message makes the record's severity worse than one -/
+theorem accum_bad (sevs : List Sev) (sv : Sev) (hm : sv ∈ sevs) (hb : sv.toInt < Sev.usermsg.toInt) :
+    ∀ e : Sev, (accum e sevs).toInt < Sev.usermsg.toInt := by
+  have mono : ∀ (t : List Sev) (e : Sev), (accum e t).toInt ≤ e.toInt := by
+    intro t
+    induction t with
+    | nil => intro e; exact Int.le_refl _
+    | cons s t ih =>
+      intro e
+      refine Int.le_trans (ih _) ?_
+      show (if s.toInt ≤ Sev.usermsg.toInt then e.greater s else e).toInt ≤ e.toInt
+      split
+      · exact greater_le_left _ _
+      · exact Int.le_refl _
+  induction sevs with
+  | nil => cases hm
+  | cons s t ih =>
+    intro e
+    rcases List.mem_cons.mp hm with rfl | hm'
+    · refine Int.lt_of_le_of_lt (mono t _) ?_
+      have : sv.toInt ≤ Sev.usermsg.toInt := Int.le_of_lt hb
+      show (if sv.toInt ≤ Sev.usermsg.toInt then e.greater sv else e).toInt < _
+      rw [if_pos this]
+      exact Int.lt_of_le_of_lt (greater_le_right _ _) hb
+    · exact ih hm' _
+
+theorem errAfter_le {F} (xs : List (Step F)) : ∀ e : Sev, (errAfter e xs).toInt ≤ e.toInt := by
+  induction xs with
+  | nil => intro e; exact Int.le_refl _
+  | cons x xs ih =>
+    intro e
+    exact Int.le_trans (ih (appendEntityError e x.sev)) (appendEntityError_le e x.sev)
+
+theorem errAfter_bad {F} (xs : List (Step F)) (x : Step F) (hx : x ∈ xs) (hb : x.sev.toInt < Sev.usermsg.toInt) :
+    ∀ e : Sev, (errAfter e xs).toInt < Sev.usermsg.toInt := by
+  induction xs with
+  | nil => cases hx
+  | cons y ys ih =>
+    intro e
+    rcases List.mem_cons.mp hx with rfl | hx'
+    · exact Int.lt_of_le_of_lt (errAfter_le ys _) (appendEntityError_bad e x.sev hb)
+    · exact ih hx' _
+
+/-- **the violation is confined** (`_partial`: records in internal mapping whose keyword names a non-abstract entity of
+    the dictionary, pairwise different ids, `ENDSEC;` and the end keyword in place, `skipws` off as it is in a data
+    section; each record is `Marked` — every parameter is read where it stands with a known severity, see the
+    `C03_*_detected` theorems for the violation classes and `C01.covered_rd` for the conforming kinds — or `Flawed` —
+    its tokenisation is intact and `STEPread` comes back with WARNING or worse, the stream anywhere; violations that end
+    in a skipped record (unknown keyword, duplicate id, missing `=`) and externally mapped records are not covered
+    here).  For every dictionary, every configuration with the comment repairs and the resynchronisation of
+    `ReadInstance`, either strictness, any number of records in any order and any layout: **every record is read to
+    exactly the outcome it has on its own** — a record whose parameters are all read without a message is complete with
+    the values of its tokens whatever stands before or after it, and inside a record with a violating parameter every
+    other parameter keeps the value of its token —, the severities reported are exactly those of the records, in
+    file order, and one record with a severity worse than a user message makes p21read exit with 1. -/
+theorem C03_violation_confined_partial {F} (ops : FloatOps F) (lex : LexCfg) (cfg : RWCfg) (d : Dict) (strict : Bool)
+    (hskip : cfg.skipInstanceSkipsComments = true) (hrs : cfg.errorResyncsFromStart = true)
+    (xs : List (Step F)) (g0 sp gE after : List Byte) (hg0 : Seps g0) (hsp : sp.all isSpace = true) (hgE : Seps gE)
+    (hnd : (xs.map (·.r.id)).Nodup)
+    (h1 : ∀ x ∈ xs, Rec1OK d x.rg)
+    (h2 : ∀ x ∈ xs,
+      Marked { ops := ops, lex := lex, cfg := cfg, dict := d,
+               lookup := Mgr.lookup d ({ insts := xs.map (fun x => mkInst d x.rg) } : Mgr F) } strict x ∨
+      Flawed { ops := ops, lex := lex, cfg := cfg, dict := d,
+               lookup := Mgr.lookup d ({ insts := xs.map (fun x => mkInst d x.rg) } : Mgr F) } strict x) :
+    ∃ res, readDataSection ops lex cfg d strict false
+        (g0 ++ renderRecs (xs.map Step.rg) (endsec sp (gE ++ (endIso ++ 59 :: after)))) = .ok res ∧
+      res.mgr.insts = xs.map (·.out) ∧ res.reported = (xs.map (·.sev)).reverse ∧ res.created = xs.length ∧
+      res.valid = xs.length ∧ res.sev = errAfter .null xs ∧
+      ((∃ x ∈ xs, x.sev.toInt < Sev.usermsg.toInt) → exitStatus res.sev = 1) := by
+  obtain ⟨res, hr, hm, hsev, hc, _, hv, _, hrep⟩ :=
+    readDataSection_steps ops lex cfg hskip d strict sp _ hsp (tailOK_endIso gE hgE after) xs g0 hg0 h1 hnd
+      (by
+        intro x hx
+        rcases h2 x hx with ⟨hlex, hg, hscan, qs, e, hqs, hpar, hent, hattrs, hsv, hout⟩ | ⟨hlex, hg, hscan, hle, e, vals, hent, hout, hrd⟩
+        · refine ⟨hg, by rw [hout], by rw [hout]; rfl, ?_⟩
+          intro st l rest hfind hlk hs
+          obtain ⟨l', h⟩ := readInstance_params ops lex cfg d strict hskip st x.r hlex qs hqs
+            (by intro q hq; rw [hlk]; exact hpar q hq) hscan l rest hs (mkInst d x.rg) hfind rfl rfl
+            { name := x.r.name, vals := match d.entity? x.r.name with | some e => defaults e.attrs | none => [] } rfl e hent hattrs
+          refine ⟨l', ?_⟩
+          rw [h, hout, hsv]
+          rfl
+        · refine ⟨hg, by rw [hout], by rw [hout]; rfl, ?_⟩
+          intro st l rest hfind hlk hs
+          obtain ⟨l', h⟩ := C03_error_resync_confines ops lex cfg d strict hrs hskip st x.r hlex hscan l rest false hs
+            (mkInst d x.rg) hfind rfl rfl
+            { name := x.r.name, vals := match d.entity? x.r.name with | some e => defaults e.attrs | none => [] } rfl e hent
+            x.sev vals (by intro L; rw [hlk]; exact hrd L rest) hle
+          refine ⟨l', ?_⟩
+          rw [h, hout]
+          rfl)
+  refine ⟨res, hr, hm, hrep, hc, hv, hsev, ?_⟩
+  rintro ⟨x, hx, hb⟩
+  rw [C03_exit_iff_worse_than_usermsg, hsev]
+  exact errAfter_bad xs x hx hb .null
+
+/-! ### which reader flags which violation: the classes for which the model makes it tractable.  Each statement is a
+    `ParamRd`: the parameter is read *wherever it stands in a file*, in any layout, with the stated severity, the
+    stream rests at the delimiter (so the parameters after it are read as if nothing had happened), and by
+    `C03_violation_confined_partial` / `accum_bad` the record, the file and p21read's exit status are flagged. -/
+
+/-- **missing required value**: `$` for an attribute that is neither OPTIONAL nor derived, strict mode: INCOMPLETE -/
+theorem C03_missing_required_value_detected {F} (env : Env F) (hcfg : env.lex.criSkipsComments = true) (a : AttrD)
+    (hopt : a.optional = false) (hder : a.derived = false) (hred : a.redefining = false)
+    (before after : List Byte) (hb : Seps before) (ha : Seps after) :
+    ParamRd env true { a := a, v := nullOf a, tok := [36], before := before, after := after } .incomplete :=
+  ⟨hred, ⟨36, [], rfl, by decide, by decide⟩, hb, fun l sk d rest hd =>
+    ⟨sk, Or.inl rfl, by simpa using attr_dollar_required env a hopt hder hcfg l sk after ha d rest hd⟩⟩
+
+/-- **missing required aggregate**: `$` for a required aggregate attribute, either mode: INCOMPLETE -/
+theorem C03_missing_required_aggregate_detected {F} (env : Env F) (strict : Bool) (hcfg : env.lex.criSkipsComments = true)
+    (a : AttrD) (ety : ElemTy) (hty : a.ty = .aggr ety)
+    (hopt : a.optional = false) (hder : a.derived = false) (hred : a.redefining = false)
+    (before after : List Byte) (hb : Seps before) (ha : Seps after) :
+    ParamRd env strict { a := a, v := nullOf a, tok := [36], before := before, after := after } .incomplete :=
+  ⟨hred, ⟨36, [], rfl, by decide, by decide⟩, hb, fun l sk d rest hd =>
+    ⟨sk, Or.inl rfl, by simpa using attr_dollar_required_aggr env strict a ety hty hopt hder hcfg l sk after ha d rest hd⟩⟩
+
+/-- **a value where the attribute is derived** (anything but `*`; any text without `,` `)` — and without NUL where that
+    counts as a delimiter — that starts with neither a blank nor `/`): WARNING -/
+theorem C03_value_for_derived_detected {F} (env : Env F) (strict : Bool) (a : AttrD) (hder : a.derived = true)
+    (hred : a.redefining = false) (j0 : Byte) (js : List Byte) (hj0s : isSpace j0 = false) (hj047 : j0 ≠ 47) (hj042 : j0 ≠ 42)
+    (hj : ∀ b ∈ j0 :: js, delimAt env.lex attrDelims b = false) (before : List Byte) (hb : Seps before) :
+    ParamRd env strict { a := a, v := .derived, tok := j0 :: js, before := before, after := [] } .warning :=
+  ⟨hred, ⟨j0, js, rfl, hj0s, hj047⟩, hb, fun l sk d rest hd =>
+    ⟨sk, Or.inl rfl, by simpa using attr_derived_value env strict a hder j0 js hj0s hj047 hj042 hj l sk d rest hd⟩⟩
+
+/-- **wrong literal kind for an INTEGER attribute**: a text that starts like no integer — a string, an enumeration
+    item, a binary, a keyword, a reference — and contains no `,` `)` (for those that do, see `Flawed` and the
+    resynchronisation): `ReadInteger` assigns nothing, WARNING, the attribute stays unset -/
+theorem C03_wrong_kind_for_integer_detected {F} (env : Env F) (strict : Bool) (a : AttrD) (hty : a.ty = .one .integer)
+    (hder : a.derived = false) (hred : a.redefining = false)
+    (j0 : Byte) (js : List Byte) (hj0s : isSpace j0 = false) (hj047 : j0 ≠ 47) (hj036 : j0 ≠ 36)
+    (hj0d : isDigit j0 = false) (hj043 : j0 ≠ 43) (hj045 : j0 ≠ 45)
+    (hj : ∀ b ∈ j0 :: js, delimAt env.lex attrDelims b = false) (before : List Byte) (hb : Seps before) :
+    ParamRd env strict { a := a, v := .one (.atom .unset), tok := j0 :: js, before := before, after := [] } .warning :=
+  ⟨hred, ⟨j0, js, rfl, hj0s, hj047⟩, hb, fun l sk d rest hd =>
+    ⟨sk, Or.inl rfl, by simpa using attr_integer_junk env strict a hty hder j0 js hj0s hj047 hj036 hj0d hj043 hj045 hj l sk d rest hd⟩⟩
+
+/-- **dangling or wrong-type reference**: `#id` where the file has no instance `id`, or one whose type does not conform
+    to the attribute's entity type: WARNING, the attribute stays unset -/
+theorem C03_bad_reference_detected {F} (env : Env F) (strict : Bool) (hcfg : env.lex.criSkipsComments = true) (a : AttrD)
+    (tg : String) (hty : a.ty = .one (.entity tg)) (hder : a.derived = false) (hred : a.redefining = false)
+    (ds : List Byte) (hne : ds ≠ []) (hds : ds.all isDigit = true) (hhi : ((digitsVal ds 0 : Nat) : Int) ≤ IStream.intMax)
+    (hbad : refLookup env.lookup tg ((digitsVal ds 0 : Nat) : Int) ≠ .found)
+    (before after : List Byte) (hb : Seps before) (ha : Seps after) :
+    ParamRd env strict { a := a, v := .one (.atom .unset), tok := 35 :: ds, before := before, after := after } .warning :=
+  ⟨hred, ⟨35, ds, rfl, by decide, by decide⟩, hb, fun l sk d rest hd =>
+    ⟨sk, Or.inl rfl, by simpa using attr_ref_bad env strict a tg hty hder hcfg ds hne hds hhi hbad l sk after ha d rest hd⟩⟩
+
 /-! ### the hypotheses are satisfiable: a string where an INTEGER is required -/
 def exDict : Dict :=
   { entities := [{ name := "A", attrs := [{ name := "x", ty := .one .integer, optional := false }], ancestors := ["A"] }],
@@ -503,5 +712,24 @@ def exRun : M (FileResult Nat) :=
 
 example : (match exRun with | .ok r => r.reported | .error _ => []) = [Sev.warning] := by decide
 example : (match exRun with | .ok r => exitStatus r.sev | .error _ => 0) = 1 := by decide
+
+/-! ### the defect behind the resynchronisation, and its repair, on the minimal input (model level; the check replays
+    `corpus/C03/string-delimiters-as-scalar.json` on the code) -/
+def delimRun (resync : Bool) : M (FileResult Nat) :=
+  readDataSection dblOps Generated.rwLexCfg { Generated.rwCfg with errorResyncsFromStart := resync } exDict false false
+    (stringToBytes "#1=A('a)b;c');#2=A(5);ENDSEC;END-ISO-10303-21;")
+def delimStates (resync : Bool) : List (Int × NState × List (MVal Nat)) :=
+  match delimRun resync with
+  | .ok r => r.mgr.insts.map (fun i => (i.id, i.state, i.parts.flatMap (·.vals)))
+  | .error _ => []
+
+/-- without the resynchronisation the conforming record `#2=A(5);` that follows the flawed one is never read -/
+theorem C03_string_delimiters_witness :
+    delimStates false = [(1, .incomplete, [.one (.atom .unset)]), (2, .new, [.one (.atom .unset)])] := by decide
+
+/-- with it, `#2` is read to its value and is complete; `#1` is reported as before -/
+theorem C03_string_delimiters_repaired :
+    delimStates true = [(1, .incomplete, [.one (.atom .unset)]), (2, .complete, [.one (.atom (.int 5))])] ∧
+    (match delimRun true with | .ok r => r.reported | .error _ => []) = [Sev.null, Sev.warning] := by decide
 
 end StepModel.P21.C03
